@@ -271,6 +271,84 @@ Proof.
   apply JOK_modify_keep. intros n. repeat split.
 Qed.
 
+(* ---------- CharsLeaf at EVERY exit of the merge ---------- *)
+Definition CAny {A} (m : W A) : Prop := forall w r w', CharsLeaf T w -> m w = Val (r, w') -> CharsLeaf T w'.
+Lemma CAny_ro {A} (m : W A) : ro m -> CAny m.
+Proof. intros H w r w' I E. apply H in E. subst. exact I. Qed.
+Lemma CAny_bind {A B} (m : W A) (k : A -> W B) : CAny m -> (forall a, CAny (k a)) -> CAny (wbind m k).
+Proof.
+  intros Hm Hk w r w' I H. apply wbind_inv in H as [(a & w1 & H1 & H2) | (e & H1 & _)].
+  - eapply Hk; [|exact H2]. eapply Hm; eauto.
+  - eapply Hm; eauto.
+Qed.
+Lemma CAny_modify_keep i f :
+  (forall n, n_type (f n) = n_type n /\ kids (f n) = kids n) -> CAny (modify_node i f).
+Proof.
+  intros Hf w r w' CL H. apply modify_node_wset in H as (n & Hn & _ & ->). destruct (Hf n) as (A1 & A2).
+  eapply CharsLeaf_wset; eauto. split; auto. intros _ H0. rewrite A2. exact H0.
+Qed.
+Lemma CAny_restrict files : forall l, CAny (restrict_a_only l files).
+Proof.
+  induction l as [|e l IH]; cbn [restrict_a_only]; [apply CAny_ro; ro_tac|].
+  apply CAny_bind; [|intros _; exact IH]. apply CAny_modify_keep. intros n. destruct (is_empty (n_files n)); split; reflexivity.
+Qed.
+Lemma CAny_import pa nf minv : forall l idx, CAny (import_new_items T pa l idx nf minv).
+Proof.
+  induction l as [|[x ipos] l IH]; intros idx; cbn [import_new_items]; [apply CAny_ro; ro_tac|].
+  apply CAny_bind; [apply CAny_modify_keep; intros n; split; reflexivity|intros _].
+  apply CAny_bind; [apply CAny_modify_keep; intros n; split; reflexivity|intros _].
+  intros w r w' CL H.
+  apply wbind_inv in H as [(ne & w3 & E3 & H) | (e & E3 & _)]; [|apply get_node_inv in E3 as (? & _ & [=] & _)].
+  apply get_node_inv in E3 as (ne' & Hne & [= ->] & ->).
+  apply wbind_inv in H as [(pan & w4 & E4 & H) | (e & E4 & _)]; [|apply get_node_inv in E4 as (? & _ & [=] & _)].
+  apply get_node_inv in E4 as (pan' & Hpan & [= ->] & ->).
+  apply wbind_inv in H as [(range & w5 & E5 & H) | (e & E5 & _)]; [|apply wcatch_inv in E5 as (? & _ & [=])].
+  apply wcatch_inv in E5 as (r0 & E5 & [= ->]).
+  pose proof (ro_calc_range T _ _ _ _ _ _ E5) as ->.
+  destruct r0 as [[fp lp]|e]; [|apply wfail_inv in H as (_ & ->); exact CL].
+  pose proof (calc_range_not_chars _ _ _ _ _ _ E5) as Hnc.
+  apply wbind_inv in H as [(u3 & w6 & E6 & H) | (e & E6 & _)]; [|apply content_insert_inv in E6 as (? & _ & [=] & _)].
+  apply content_insert_inv in E6 as (npa & Hnpa & _ & ->).
+  rewrite Hpan in Hnpa. injection Hnpa as <-.
+  eapply IH; [|exact H]. eapply CharsLeaf_wset; [exact CL|exact Hpan|]. split; [reflexivity|].
+  intros Hc. contradiction.
+Qed.
+
+Lemma CAny_walk {A} (f : res (out A)) :
+  CAny (fun w0 => match f with Val o => Val (o, w0) | Pan s => Pan s | Fuel => Fuel end).
+Proof. intros w a w' I H. destruct f as [o| |]; try discriminate H. injection H as _ <-. exact I. Qed.
+
+Lemma CAny_merge LATEST ndr : forall fuel pa files pb nf, CAny (merge_element T LATEST ndr fuel pa files pb nf).
+Proof.
+  induction fuel as [|fl IH]; intros pa files pb nf; [intros w a w' _ H; discriminate H|].
+  cbn [merge_element].
+  apply CAny_bind; [apply CAny_ro; ro_tac|intros w0].
+  apply CAny_bind; [apply CAny_ro; ro_tac|intros na].
+  apply CAny_bind; [apply CAny_ro; ro_tac|intros nb].
+  apply CAny_bind; [apply CAny_ro; ro_tac|intros la].
+  apply CAny_bind; [apply CAny_ro; ro_tac|intros lb].
+  apply CAny_bind; [apply CAny_ro; ro_tac|intros sp].
+  apply CAny_bind; [apply CAny_walk|intros wk].
+  apply CAny_bind; [apply CAny_restrict|intros _].
+  apply CAny_bind; [apply CAny_import|intros _].
+  induction (wk_merge wk) as [|[ea eb] l IHl]; [apply CAny_ro; ro_tac|].
+  apply CAny_bind; [apply CAny_ro; ro_tac|intros nea].
+  apply CAny_bind; [apply IH|intros _].
+  apply CAny_bind; [|intros _; exact IHl].
+  apply CAny_modify_keep. intros n. destruct (negb (is_empty (n_files n))); split; reflexivity.
+Qed.
+
+Lemma CAny_merge_file_data LATEST ndr m re fid : CAny (merge_file_data T LATEST ndr m re fid).
+Proof.
+  unfold merge_file_data.
+  apply CAny_bind; [apply CAny_ro; ro_tac|intros x].
+  apply CAny_bind; [apply CAny_ro; ro_tac|intros w0].
+  apply CAny_bind; [apply CAny_merge|intros _].
+  apply CAny_bind; [apply CAny_ro; ro_tac|intros x2].
+  apply CAny_modify_keep. intros n. split; reflexivity.
+Qed.
+
+
 (* ------------------------------------------------------------------ Part 3: kill / drop and the three invariants *)
 (* every node stays allocated with its type *)
 Definition tkeep (w w' : world) : Prop :=
